@@ -84,6 +84,29 @@ func c16Gen(seed uint64, tier string) any {
 			h = "// #EnableDice " + macroNames[sideFam] + " true\n" + Pick(r, []string{"2d", "d + 1", "d"})
 			fam = sideFam
 		}
+		if r.Chance(1, 5) {
+			// the host turns families on for a while: a macro-free use while enabled, then off again (or the
+			// other way round), by assigning to vm.Config between evaluations
+			tf := fam
+			if _, ok := macroNames[tf]; !ok {
+				tf = Pick(r, []string{"coc", "wod", "dc", "fate"})
+			}
+			if sideFam != "" {
+				tf = sideFam
+			}
+			use := Pick(r, famSpellings[tf])
+			if sideFam != "" {
+				use = Pick(r, []string{"2d", "d + 1", "d"})
+			}
+			sc.Cmds = append(sc.Cmds, Cmd{Kind: "flags", Src: tf + "=1"}, Cmd{Kind: "run", Src: use}, Cmd{Kind: "flags", Src: tf + "=0"})
+			sc.Probe = append(sc.Probe, false, false, false)
+			fam = tf
+			if r.Bool() {
+				// the very same text again, now that the family is off
+				sc.Cmds = append(sc.Cmds, Cmd{Kind: "run", Src: use})
+				sc.Probe = append(sc.Probe, true)
+			}
+		}
 		sc.Cmds = append(sc.Cmds, Cmd{Kind: "run", Src: h})
 		sc.Probe = append(sc.Probe, false)
 		// probe: macro-free
@@ -202,7 +225,29 @@ func c16Exec(raw json.RawMessage, res *RunResult) {
 	want := cfgFingerprint(vm)
 	var key []string
 	probes := 0
+	curCfg := sc.Cfg // the switches in force (the host may assign to vm.Config between evaluations)
 	for i, c := range sc.Cmds {
+		if c.Kind == "flags" {
+			DoCmd(vm, c)
+			for _, kv := range strings.Split(c.Src, ",") {
+				k, v, _ := strings.Cut(kv, "=")
+				on := v == "1"
+				switch k {
+				case "coc":
+					curCfg.CoC = on
+				case "wod":
+					curCfg.WoD = on
+				case "fate":
+					curCfg.Fate = on
+				case "dc":
+					curCfg.DC = on
+				}
+			}
+			want = cfgFingerprint(vm)
+			res.Fault("host_changes_switches")
+			key = append(key, c.Src)
+			continue
+		}
 		isProbe := i < len(sc.Probe) && sc.Probe[i]
 		if isProbe {
 			// stored values are data, not syntax: a function compiled under a macro earlier is outside this
@@ -266,7 +311,7 @@ func c16Exec(raw json.RawMessage, res *RunResult) {
 		}
 		for _, op := range ops {
 			fam := gatedFamily(op.Name)
-			if fam == "" || !famOff(sc.Cfg, fam) {
+			if fam == "" || !famOff(curCfg, fam) {
 				continue
 			}
 			if fam == "stmt" && op.Name == "ret" {
@@ -287,7 +332,7 @@ func c16Exec(raw json.RawMessage, res *RunResult) {
 			}
 		}
 		for fam, n := range executed {
-			if famOff(sc.Cfg, fam) && fam != "stmt" {
+			if famOff(curCfg, fam) && fam != "stmt" {
 				res.Violate("gated-opcode-executed@"+fam, "with %s disabled and no macro in the input, %q executed %d instruction(s) of that family (dice drawn meanwhile: %d)\n  history=%s", fam, c.Src, n, dicePerFam[fam], fmtCmds(sc.Cmds[:i]))
 			}
 		}
